@@ -25,7 +25,7 @@ def suite():
     return (not failed), passed, o[-600:]
 for sd in seeds:
     pid, m = sd.split("/")
-    d = "/tmp/seed/%s.out/%s" % (pid, m)
+    d = "%s/%s.out/%s" % (os.environ.get("SRC", "/tmp/seed"), pid, m)
     patch = d + "/patch.diff"
     if sd.startswith("adapted:"):
         pass
